@@ -922,15 +922,21 @@ func (c Identifiers[V]) AddArgs(names []string, outersUsed *[]string) Identifier
 		ident, ok := c(name)
 		if outersUsed != nil {
 			if ok && !ident.IsConst {
+				// the value that has to be captured is the map if the
+				// identifier is an attribute of an implicit map
+				outer := name
+				if ident.ThisName != "" {
+					outer = ident.ThisName
+				}
 				found := false
 				for _, n := range *outersUsed {
-					if n == name {
+					if n == outer {
 						found = true
 						break
 					}
 				}
 				if !found {
-					*outersUsed = append(*outersUsed, name)
+					*outersUsed = append(*outersUsed, outer)
 				}
 			}
 		}
